@@ -21,6 +21,7 @@ NOOP, UP, DOWN, LEFT, RIGHT, LOAD = range(6)
 class Adapter(EnvAdapter):
     name = "LBF"
     props = ("C01", "C03", "C04", "C05", "C07", "C08", "C09", "C10", "C11", "C12")
+    gen_heavy = {'g6a2f1_t1': (60, 400), 'g7a4f2_t7': (40, 300), 'g8a3f1_lvl4_t3': (40, 300)}
     probe_cap = 36
 
     # ---- configurations -------------------------------------------------------------------
